@@ -9,6 +9,7 @@ R03.lim    numeric_limits<half> bit patterns and integer constants recomputed fr
 R03.round  round(n), n = 0..9 and n >= 10: sign re-attached unchanged, low 10-n significand bits cleared,
            round-half-up on the magnitude by threshold reasoning (within half a unit of n-bit precision),
            truncation exactly when rounding reaches the infinity pattern
+R03.io     operator<< inserts float(h) once and touches no formatting state; operator>> extracts one float and stores half(f)
 R03.hf     halfFunction: table size = loop bound = 2^16 = index range; decision order NaN -> inf (by sign)
            -> outside domain -> f(x); operator() returns _lut[x.bits()]
 """
@@ -256,7 +257,8 @@ def main(rep, ws, tier):
         bad = [v for v in vals if pattern_of(Fraction(v)) != want]
         rep.ob('macro ' + k, 'R03.lim', VIOLATED if bad else HOLDS, ('literal %s rounds to binary16 pattern %#06x, the format extreme is %#06x' % (bad[0], pattern_of(Fraction(bad[0])), want)) if bad else 'literals %s round to %#06x' % (vals, want), 'src/Imath/half.h', nontrivial=False)
     check_halffunction(rep, ws)
-    rep.floor('half obligations', len(rep.obs), 50)
+    check_stream_ops(rep, ws)
+    rep.floor('half obligations', len(rep.obs), 52)
     rep.assumptions += ['conversions kept opaque (their own correctness is C01)']
     rep.undecided_clauses += ['text output followed by text input reproduces every finite half (depends on stream precision at run time)', 'agreement with the float classification of the converted value (follows from C01)']
 
@@ -359,6 +361,59 @@ def analyse_round_leaf(leaf, word, k):
     if bv.bits[0] != ('in', k - 1) or any(z != 0 for z in bv.bits[1:]):
         return 'rounding increment is %r, expected input bit %d (the first discarded bit)' % (bv, k - 1)
     return None
+
+def check_stream_ops(rep, ws):
+    """R03.io: operator<<(ostream&, half) performs exactly one stream operation, the insertion of float(h), and touches no
+    formatting state (precision, flags, width); operator>> extracts one float and stores half(f).  The text round trip of
+    a finite half is then that of its float value under the caller's stream state."""
+    import os
+    hdr = '#include <iostream>\n#include "%s"\nusing namespace IMATH_INTERNAL_NAMESPACE;\n' % os.path.join(build.REPO, 'src', 'Imath', 'half.cpp')
+    tu = TU('c03io', header=hdr, opaque=tuple(build.HALF_OPAQUE) + ('St8ios_base', 'St9basic_ios'))
+    tu.add('w_out', 'std::ostream& s, const half& h', 's << h;', kind='io')
+    tu.add('w_in', 'std::istream& s, half& h', 's >> h;', kind='io')
+    try:
+        mod = ws.module(tu.name, tu.source(), opaque=tu.opaque)
+    except build.BuildError as e:
+        rep.ob('half::operator<<', 'R03.io', UNDECIDED, str(e)[:300], 'src/Imath/half.cpp'); return
+    I = vg.Interp(mod)
+    where = 'src/Imath/half.cpp'
+    try:
+        S = I.run('w_out')
+        std = [(n, c) for n, c, ln in S.calls if n.startswith('_ZNS') or n.startswith('_ZSt') or 'basic_ostream' in n or 'ios_base' in n]
+        h = T.inp('a1', 0, 2, 'i16')
+        ins = [c for n, c in std if n.startswith('_ZNSolsEf')]          # std::ostream::operator<<(float)
+        def harmless(n, c):
+            # reading formatting state changes nothing; a precision that is at least max_digits10 of half (5), or the restore
+            # of a value read before, keeps every finite half's text readable back
+            if n.startswith('_ZNKSt8ios_base') or n.startswith('_ZNKSt9basic_ios'): return True
+            if n.startswith('_ZNSt8ios_base9precisionE'):
+                a = c.args[-1]
+                if a.op == 'const' and isinstance(a.attr, int) and a.attr >= 5: return True
+                if a.op == 'call' and '_ZNKSt8ios_base9precisionEv' in str(a.attr): return True
+                if a.op == 'call' and '_ZNSt8ios_base9precisionE' in str(a.attr): return True     # value returned by an earlier set
+            return False
+        other = [n for n, c in std if not n.startswith('_ZNSolsEf') and not harmless(n, c)]
+        payload_ok = False
+        if len(ins) == 1:
+            vals = [a for a in ins[0].args if a.ty == 'float']
+            payload_ok = len(vals) == 1 and vals[0].op == 'call' and 'imath_half_to_float' in str(vals[0].attr) and vals[0].args[0] is h
+        ok = len(ins) == 1 and not other and payload_ok
+        rep.ob('half::operator<<', 'R03.io', HOLDS if ok else VIOLATED,
+               'one insertion of float(h), no other stream operation' if ok else
+               ('the stream is also operated on through %s (formatting state such as the precision decides whether the text reads back to the same half)' % other[0] if other else 'expected exactly one insertion of float(h); found %d insertions (payload float(h): %s)' % (len(ins), payload_ok)), where)
+    except vg.Unsupported as e:
+        rep.ob('half::operator<<', 'R03.io', UNDECIDED, str(e)[:300], where)
+    try:
+        S = I.run('w_in')
+        std = [(n, c) for n, c, ln in S.calls if n.startswith('_ZNS') or n.startswith('_ZSt')]
+        ext = [c for n, c in std if n.startswith('_ZNSirsERf')]           # std::istream::operator>>(float&)
+        other = [n for n, c in std if not n.startswith('_ZNSirsERf')]
+        o = S.out('a1', 0, 2, 'i16')
+        conv = o.op == 'call' and 'imath_float_to_half' in str(o.attr)
+        ok = len(ext) == 1 and not other and conv
+        rep.ob('half::operator>>', 'R03.io', HOLDS if ok else VIOLATED, 'one extraction of a float f, h = half(f)' if ok else 'extractions: %d, other stream operations: %s, stored value %s' % (len(ext), other[:2], T.show(o, 3)[:120]), where)
+    except vg.Unsupported as e:
+        rep.ob('half::operator>>', 'R03.io', UNDECIDED, str(e)[:300], where)
 
 def check_halffunction(rep, ws):
     """structural analysis of the constructor's loop on one symbolic iteration"""
